@@ -55,8 +55,10 @@ def spkToNat (env : BEnv) : Spk H → Spk Nat
   | .p2wsh sc => .p2wsh (wshB env sc)
   | .other n => .other n
 
-/-- funding txid id `n` ↦ the 32 bytes `n n … n` as a number -/
-def txidNat (n : Nat) : Nat := beNat (List.replicate 32 (UInt8.ofNat n))
+/-- funding txid id `n` ↦ the 32 bytes `31·n + 7·i + 1 (mod 256)`, `i = 0..31` (not a byte palindrome), read as the
+    little-endian number `ser` writes back out -/
+def txidNat (n : Nat) : Nat :=
+  beNat ((List.range 32).map (fun i => UInt8.ofNat (31 * n + 7 * i + 1))).reverse
 
 /-- the byte-level instance: `H := Nat`, P2WSH by SHA-256, order = byte order; serialised -/
 def serCanon (st : St) : String :=
